@@ -5,20 +5,42 @@ package main
 // `go` statements, and uses of math/rand — with a syntactic classification of what a map-ordered
 // loop does.  Output: lean/Gv/Gen/DetFacts.lean.
 //
-// Map-typed expressions are recognised syntactically (no type checker): identifiers declared in the
-// same function from `make(map…)`, a map composite literal or a map-typed declaration / parameter /
-// named result; struct fields declared with a map type anywhere in the scanned packages; calls of
-// functions / methods whose first result is declared as a map.
+// The packages are loaded and TYPE-CHECKED with golang.org/x/tools/go/packages (offline, from the
+// module cache the test suite already needs): a `range` statement is a map range exactly when the
+// type of its operand has a map as underlying type.
 
 import (
 	"fmt"
 	"go/ast"
 	"go/token"
+	"go/types"
 	"os"
 	"path/filepath"
 	"sort"
 	"strings"
+
+	"golang.org/x/tools/go/packages"
 )
+
+var fset *token.FileSet
+
+func writeIfChanged(path, content string) {
+	if old, err := os.ReadFile(path); err == nil && string(old) == content {
+		return
+	}
+	if err := os.WriteFile(path, []byte(content), 0o644); err != nil {
+		fmt.Fprintln(os.Stderr, "detscan:", err)
+		os.Exit(1)
+	}
+}
+
+func main() {
+	if len(os.Args) != 3 {
+		fmt.Fprintln(os.Stderr, "usage: detscan <repo> <outdir>")
+		os.Exit(2)
+	}
+	emitDetFacts(os.Args[1], os.Args[2])
+}
 
 type detSite struct {
 	file, fn, kind, class, detail string
@@ -43,8 +65,54 @@ func isMapExpr(e ast.Expr) bool {
 }
 
 // classifyBody gives a coarse description of what the body of a map-ordered loop does.
-func classifyBody(body *ast.BlockStmt, mapLocals map[string]bool, sortedLater func(name string) bool) (string, string) {
+func classifyBody(body *ast.BlockStmt, key string, mapLocals map[string]bool, sortedLater func(name string) bool) (string, string) {
 	appendsTo := map[string]bool{}
+	// selection: a plain variable declared outside the loop is overwritten under a condition (arg-max
+	// and the like).  It is order-insensitive only when ties are broken by the loop key.
+	declared := map[string]bool{}
+	selects := false
+	keyCompared := false
+	ast.Inspect(body, func(n ast.Node) bool {
+		switch x := n.(type) {
+		case *ast.AssignStmt:
+			if x.Tok == token.DEFINE {
+				for _, l := range x.Lhs {
+					if id, ok := l.(*ast.Ident); ok {
+						declared[id.Name] = true
+					}
+				}
+			}
+		case *ast.IfStmt:
+			ast.Inspect(x.Cond, func(m ast.Node) bool {
+				if b, ok := m.(*ast.BinaryExpr); ok && (b.Op == token.LSS || b.Op == token.GTR || b.Op == token.LEQ || b.Op == token.GEQ) {
+					for _, side := range []ast.Expr{b.X, b.Y} {
+						if id, ok := side.(*ast.Ident); ok && id.Name == key && key != "" && key != "_" {
+							keyCompared = true
+						}
+					}
+				}
+				return true
+			})
+			ast.Inspect(x.Body, func(m ast.Node) bool {
+				if a, ok := m.(*ast.AssignStmt); ok && a.Tok == token.ASSIGN {
+					for i, l := range a.Lhs {
+						if id, ok := l.(*ast.Ident); ok && !declared[id.Name] && id.Name != "_" && id.Name != "err" {
+							if i < len(a.Rhs) {
+								if c, ok := a.Rhs[i].(*ast.CallExpr); ok {
+									if f, ok := c.Fun.(*ast.Ident); ok && f.Name == "append" {
+										continue
+									}
+								}
+							}
+							selects = true
+						}
+					}
+				}
+				return true
+			})
+		}
+		return true
+	})
 	floatAcc := false
 	writesOut := false
 	other := false
@@ -94,6 +162,10 @@ func classifyBody(body *ast.BlockStmt, mapLocals map[string]bool, sortedLater fu
 		return "writes-output", ""
 	case other:
 		return "early-exit", otherWhat
+	case selects && keyCompared:
+		return "selects-ties-by-key", ""
+	case selects:
+		return "selects-first-wins", ""
 	case len(appendsTo) > 0:
 		names := []string{}
 		unsorted := []string{}
@@ -116,57 +188,34 @@ func classifyBody(body *ast.BlockStmt, mapLocals map[string]bool, sortedLater fu
 }
 
 func emitDetFacts(repo, out string) {
-	dirs := []string{"align", "cmd", "distance/dna", "distance/protein", "io", "io/clustal", "io/countprofile", "io/fasta",
-		"io/nexus", "io/paml", "io/partition", "io/phylip", "io/stockholm", "io/utils", "models", "models/dna", "models/protein",
-		"stats", "gutils", "."}
 	type pf struct {
 		path string
 		f    *ast.File
+		info *types.Info
+	}
+	cfg := &packages.Config{Mode: packages.NeedName | packages.NeedFiles | packages.NeedSyntax | packages.NeedTypes | packages.NeedTypesInfo | packages.NeedImports | packages.NeedDeps,
+		Dir: repo, Tests: false}
+	pkgs, err := packages.Load(cfg, "./...")
+	if err != nil {
+		fmt.Fprintln(os.Stderr, "detscan: load:", err)
+		os.Exit(1)
 	}
 	var files []pf
-	for _, d := range dirs {
-		ents, err := os.ReadDir(filepath.Join(repo, d))
-		if err != nil {
-			continue
+	for _, p := range pkgs {
+		if len(p.Errors) > 0 {
+			fmt.Fprintln(os.Stderr, "detscan: package", p.PkgPath, "has errors:", p.Errors[0])
+			os.Exit(1)
 		}
-		for _, e := range ents {
-			if e.IsDir() || !strings.HasSuffix(e.Name(), ".go") || strings.HasSuffix(e.Name(), "_test.go") {
+		fset = p.Fset
+		for _, f := range p.Syntax {
+			rel, _ := filepath.Rel(repo, p.Fset.Position(f.Pos()).Filename)
+			if strings.HasSuffix(rel, "_test.go") || strings.HasPrefix(rel, "..") {
 				continue
 			}
-			p := filepath.Join(d, e.Name())
-			files = append(files, pf{p, parseFile(filepath.Join(repo, p))})
+			files = append(files, pf{filepath.ToSlash(rel), f, p.TypesInfo})
 		}
 	}
-	// global knowledge: map-typed struct fields, functions whose first result is a map
-	mapFields := map[string]bool{}
-	mapFuncs := map[string]bool{}
-	for _, x := range files {
-		ast.Inspect(x.f, func(n ast.Node) bool {
-			switch t := n.(type) {
-			case *ast.StructType:
-				for _, f := range t.Fields.List {
-					if isMapType(f.Type) {
-						for _, nm := range f.Names {
-							mapFields[nm.Name] = true
-						}
-					}
-				}
-			case *ast.FuncDecl:
-				if t.Type.Results != nil && len(t.Type.Results.List) > 0 && isMapType(t.Type.Results.List[0].Type) {
-					mapFuncs[t.Name.Name] = true
-				}
-			case *ast.InterfaceType:
-				for _, m := range t.Methods.List {
-					if ft, ok := m.Type.(*ast.FuncType); ok && ft.Results != nil && len(ft.Results.List) > 0 && isMapType(ft.Results.List[0].Type) {
-						for _, nm := range m.Names {
-							mapFuncs[nm.Name] = true
-						}
-					}
-				}
-			}
-			return true
-		})
-	}
+	sort.Slice(files, func(i, j int) bool { return files[i].path < files[j].path })
 	var sites []detSite
 	for _, x := range files {
 		// package-level `var x = &cobra.Command{ Run: func(...) {...} }` holds most of cmd/: every function
@@ -216,36 +265,6 @@ func emitDetFacts(repo, out string) {
 			sorted := map[string]bool{}
 			ast.Inspect(fd.Body, func(n ast.Node) bool {
 				switch t := n.(type) {
-				case *ast.AssignStmt:
-					for i, l := range t.Lhs {
-						if id, ok := l.(*ast.Ident); ok && i < len(t.Rhs) && isMapExpr(t.Rhs[i]) {
-							locals[id.Name] = true
-						}
-						if id, ok := l.(*ast.Ident); ok && len(t.Rhs) == 1 {
-							if c, ok := t.Rhs[0].(*ast.CallExpr); ok {
-								switch f := c.Fun.(type) {
-								case *ast.Ident:
-									if mapFuncs[f.Name] && i == 0 {
-										locals[id.Name] = true
-									}
-								case *ast.SelectorExpr:
-									if mapFuncs[f.Sel.Name] && i == 0 {
-										locals[id.Name] = true
-									}
-								}
-							}
-						}
-					}
-				case *ast.DeclStmt:
-					if gd, ok := t.Decl.(*ast.GenDecl); ok {
-						for _, sp := range gd.Specs {
-							if vs, ok := sp.(*ast.ValueSpec); ok && vs.Type != nil && isMapType(vs.Type) {
-								for _, nm := range vs.Names {
-									locals[nm.Name] = true
-								}
-							}
-						}
-					}
 				case *ast.CallExpr:
 					if s, ok := t.Fun.(*ast.SelectorExpr); ok {
 						if pk, ok := s.X.(*ast.Ident); ok && (pk.Name == "sort" || pk.Name == "slices") && len(t.Args) > 0 {
@@ -262,29 +281,44 @@ func emitDetFacts(repo, out string) {
 				case *ast.RangeStmt:
 					isMap := false
 					what := ""
+					if tv, ok := x.info.Types[t.X]; ok && tv.Type != nil {
+						_, isMap = tv.Type.Underlying().(*types.Map)
+					}
 					switch e := t.X.(type) {
 					case *ast.Ident:
-						isMap = locals[e.Name]
 						what = e.Name
 					case *ast.SelectorExpr:
-						isMap = mapFields[e.Sel.Name]
 						what = e.Sel.Name
 					case *ast.CallExpr:
 						switch f := e.Fun.(type) {
 						case *ast.Ident:
-							isMap = mapFuncs[f.Name]
 							what = f.Name + "()"
 						case *ast.SelectorExpr:
-							isMap = mapFuncs[f.Sel.Name]
 							what = f.Sel.Name + "()"
 						}
 					}
 					if isMap {
-						cls, det := classifyBody(t.Body, locals, func(nm string) bool { return sorted[nm] })
+						key := ""
+						if id, ok := t.Key.(*ast.Ident); ok {
+							key = id.Name
+						}
+						cls, det := classifyBody(t.Body, key, locals, func(nm string) bool { return sorted[nm] })
 						sites = append(sites, detSite{x.path, fd.Name.Name, "maprange", cls, what + ":" + det, fset.Position(t.Pos()).Line})
 					}
 				case *ast.GoStmt:
-					sites = append(sites, detSite{x.path, fd.Name.Name, "go", "", "", fset.Position(t.Pos()).Line})
+					// "all random draws are made in the main goroutine": does the body of the goroutine call math/rand
+					cls := "no-random-draw"
+					ast.Inspect(t.Call, func(m ast.Node) bool {
+						if c, ok := m.(*ast.CallExpr); ok {
+							if s, ok := c.Fun.(*ast.SelectorExpr); ok {
+								if pk, ok := s.X.(*ast.Ident); ok && pk.Name == "rand" {
+									cls = "draws-random"
+								}
+							}
+						}
+						return true
+					})
+					sites = append(sites, detSite{x.path, fd.Name.Name, "go", cls, "", fset.Position(t.Pos()).Line})
 				case *ast.CallExpr:
 					if s, ok := t.Fun.(*ast.SelectorExpr); ok {
 						if pk, ok := s.X.(*ast.Ident); ok {
